@@ -16,21 +16,26 @@ pub assume_specification<T, E>[Result::<T, E>::unwrap_or](res: Result<T, E>, def
 pub uninterp spec fn writes_allowed() -> bool;
 
 // ---- paths --------------------------------------------------------------------------------------------
-#[verifier::external_body] pub struct Path { _p: u8 }
+/// std::path::PathBuf; `Path` (always used behind `&`) is the same stand-in, so `&PathBuf` is a `&Path` as in std (Deref)
 #[verifier::external_body] pub struct PathBuf { _p: u8 }
+pub type Path = PathBuf;
 /// identity of the file a path denotes
-pub uninterp spec fn path_id(p: &Path) -> int;
-pub uninterp spec fn pathbuf_id(p: &PathBuf) -> int;
-pub uninterp spec fn joined(p: int, s: Seq<char>) -> int;
-impl Path {
-    #[verifier::external_body] pub fn to_path_buf(&self) -> (r: PathBuf) ensures pathbuf_id(&r) == path_id(self) { unimplemented!() }
-    #[verifier::external_body] pub fn join(&self, s: &str) -> (r: PathBuf) ensures pathbuf_id(&r) == joined(path_id(self), s@) { unimplemented!() }
-    #[verifier::external_body] pub fn is_relative(&self) -> (r: bool) { unimplemented!() }
-}
+pub uninterp spec fn path_id(p: &PathBuf) -> int;
+pub open spec fn pathbuf_id(p: &PathBuf) -> int { path_id(p) }
+pub uninterp spec fn joined<A>(p: int, s: A) -> int;
+/// `impl AsRef<Path>` arguments that denote a file
+pub trait PathRef: Sized { spec fn pid(&self) -> int; }
+impl PathRef for &PathBuf { open spec fn pid(&self) -> int { path_id(*self) } }
+impl PathRef for PathBuf { open spec fn pid(&self) -> int { path_id(self) } }
+/// things a path can be joined with (`impl AsRef<Path>`)
+pub trait PathArg: Sized {}
+impl PathArg for &str {}
+impl PathArg for &PathBuf {}
+impl PathArg for String {}
 impl PathBuf {
-    #[verifier::external_body] pub fn join(&self, s: &str) -> (r: PathBuf) ensures pathbuf_id(&r) == joined(pathbuf_id(self), s@) { unimplemented!() }
-    /// `&PathBuf` used where `&Path` is expected (Deref)
-    #[verifier::external_body] pub fn as_path(&self) -> (r: &Path) ensures path_id(r) == pathbuf_id(self) { unimplemented!() }
+    #[verifier::external_body] pub fn to_path_buf(&self) -> (r: PathBuf) ensures path_id(&r) == path_id(self) { unimplemented!() }
+    #[verifier::external_body] pub fn join<A: PathArg>(&self, s: A) -> (r: PathBuf) ensures path_id(&r) == joined(path_id(self), s) { unimplemented!() }
+    #[verifier::external_body] pub fn is_relative(&self) -> (r: bool) { unimplemented!() }
 }
 
 // ---- the snapshot -------------------------------------------------------------------------------------
@@ -94,9 +99,9 @@ pub mod fs_err {
         pub fn read(self, b: bool) -> (r: Self) ensures r == (OpenOptions { read: b, ..self }) { OpenOptions { read: b, ..self } }
         /// opening with write/truncate/create set modifies the file system (creates or truncates the file)
         #[verifier::external_body]
-        pub fn open(&self, path: &Path) -> (r: Result<File, IoError>)
+        pub fn open<A: PathRef>(&self, path: A) -> (r: Result<File, IoError>)
             requires (self.write || self.truncate || self.create) ==> writes_allowed(),
-            ensures r matches Ok(f) ==> f.id@ == path_id(path) && f.for_write@ == self.write
+            ensures r matches Ok(f) ==> f.id@ == path.pid() && f.for_write@ == self.write
         { unimplemented!() }
     }
     /// fs_err::copy overwrites the destination
@@ -157,3 +162,80 @@ impl WriteAll for Vec<u8> {
 /// UTF-8 bytes of a string (uninterpreted)
 pub uninterp spec fn utf8(s: Seq<char>) -> Seq<u8>;
 pub assume_specification[String::as_bytes](s: &String) -> (r: &[u8]) ensures r@ == utf8(s@);
+
+// ---- GeneratedApp::persist: guppy / toml / syn / prettyplease are pure term builders here ---------------
+#[verifier::external_body] pub struct TokenStream { _p: u8 }
+#[verifier::external_body] pub struct PackageGraph { _p: u8 }
+#[verifier::external_body] pub struct Workspace<'g> { _p: &'g u8 }
+#[verifier::external_body] pub struct Utf8Path { _p: u8 }
+#[verifier::external_body] pub struct SynFile { _p: u8 }
+#[verifier::external_body] pub struct SynError { _p: u8 }
+impl From<SynError> for AnyhowError { #[verifier::external_body] fn from(e: SynError) -> (r: Self) { unimplemented!() } }
+impl PackageGraph { #[verifier::external_body] pub fn workspace(&self) -> (r: Workspace<'_>) { unimplemented!() } }
+impl<'g> Workspace<'g> { #[verifier::external_body] pub fn root(&self) -> (r: &'g Utf8Path) { unimplemented!() } }
+impl Utf8Path { #[verifier::external_body] pub fn as_std_path(&self) -> (r: &Path) { unimplemented!() } }
+pub mod syn { use super::*; #[verifier::external_body] pub fn parse2(t: TokenStream) -> (r: Result<SynFile, SynError>) { unimplemented!() } }
+pub mod prettyplease { use super::*; #[verifier::external_body] pub fn unparse(f: &SynFile) -> (r: String) { unimplemented!() } }
+/// fs_err::create_dir_all: creating a directory is not counted as "modifying a file" (see unit.json/not_decided)
+pub mod fs_err_dirs { use super::*;
+    #[verifier::external_body] pub fn create_dir_all(p: &PathBuf) -> (r: Result<(), IoError>) { unimplemented!() }
+}
+/// `GeneratedManifest`, `normalize_path_dependencies`, `persist_manifest`, `inject_app_into_workspace_members`:
+/// toml_edit manipulation.  ASSUMED contracts (not extracted — toml_edit indexing/iterators): they touch the file system
+/// only through `fs_err::read_to_string` and the writer they are handed.
+#[verifier::external_body] pub struct GeneratedManifest { _p: u8 }
+
+// ---- pavexc_cli::generate: the compiler proper is an opaque oracle; only the persistence glue is decided ----------
+// (rustdoc caches, `cargo rustdoc` output and the terminal are not among the files the property speaks about)
+#[verifier::external_body] pub struct Color { _p: u8 }
+pub struct Blueprint { pub creation_location: Location }
+pub struct Location { pub file: String }
+#[verifier::external_body] pub struct RonError { _p: u8 }
+impl From<RonError> for AnyhowError { #[verifier::external_body] fn from(e: RonError) -> (r: Self) { unimplemented!() } }
+pub mod ron { pub mod de { use super::super::*;
+    #[verifier::external_body] pub fn from_reader(f: &File) -> (r: Result<Blueprint, RonError>) { unimplemented!() } } }
+#[verifier::external_body] pub struct DiagnosticReporter { _p: u8 }
+/// miette::Report is miette::Error
+pub type Report = MietteError;
+#[derive(PartialEq, Eq)] pub enum Severity { Advice, Warning, Error }
+impl PartialEqSpecImpl for Severity { open spec fn obeys_eq_spec() -> bool { true } open spec fn eq_spec(&self, o: &Severity) -> bool { *self == *o } }
+pub uninterp spec fn report_severity(r: &Report) -> Option<Severity>;
+impl Report { #[verifier::external_body] pub fn severity(&self) -> (r: Option<Severity>) ensures r == report_severity(self) { unimplemented!() } }
+impl DiagnosticReporter {
+    #[verifier::external_body] pub fn new() -> (r: Self) { unimplemented!() }
+    #[verifier::external_body] pub fn print_report(&mut self, e: &Report) { unimplemented!() }
+}
+#[verifier::external_body] pub struct DiagnosticSink { _p: u8 }
+pub uninterp spec fn sink_reports(s: &DiagnosticSink) -> Seq<Report>;
+impl DiagnosticSink {
+    #[verifier::external_body] pub fn new(g: PackageGraph) -> (r: Self) { unimplemented!() }
+    #[verifier::external_body] pub fn drain(&self) -> (r: Vec<Report>) ensures r@ == sink_reports(self) { unimplemented!() }
+}
+impl Clone for DiagnosticSink { #[verifier::external_body] fn clone(&self) -> (r: Self) { unimplemented!() } }
+impl Clone for PackageGraph { #[verifier::external_body] fn clone(&self) -> (r: Self) { unimplemented!() } }
+pub mod package_graph { use super::*;
+    #[verifier::external_body] pub fn retrieve_or_compute_package_graph(p: Option<PathBuf>) -> (r: Result<PackageGraph, AnyhowError>) { unimplemented!() } }
+#[verifier::external_body] pub struct CrateCollection { _p: u8 }
+impl CrateCollection {
+    #[verifier::external_body]
+    pub fn new_pavex(toolchain: String, g: PackageGraph, f: String, cache: bool, sink: DiagnosticSink) -> (r: Result<Self, AnyhowError>) { unimplemented!() }
+}
+#[verifier::external_body] pub struct App { _p: u8 }
+impl App {
+    /// pavexc::App::build: on success the sink holds warnings only (that is what `generate` asserts)
+    #[verifier::external_body]
+    pub fn build(bp: Blueprint, c: CrateCollection, sink: DiagnosticSink) -> (r: Result<(App, DiagnosticSink), DiagnosticSink>)
+        ensures r matches Ok(p) ==> forall |i: int| 0 <= i < sink_reports(&p.1).len() ==> report_severity(&#[trigger] sink_reports(&p.1)[i]) == Some(Severity::Warning)
+    { unimplemented!() }
+    #[verifier::external_body] pub fn diagnostic_representation(&self) -> (r: AppDiagnostics) { unimplemented!() }
+    #[verifier::external_body] pub fn codegen(&self) -> (r: Result<GeneratedApp, AnyhowError>) { unimplemented!() }
+}
+/// anyhow::Context on Result<T, anyhow::Error>
+pub trait Context<T> { fn context(self, msg: &str) -> Result<T, AnyhowError>; }
+impl<T> Context<T> for Result<T, AnyhowError> {
+    #[verifier::external_body]
+    fn context(self, msg: &str) -> (r: Result<T, AnyhowError>) ensures (r is Ok) == (self is Ok), self matches Ok(t) ==> r == Ok::<T, AnyhowError>(t) { unimplemented!() }
+}
+/// std::process::ExitCode
+#[derive(PartialEq, Eq)] pub struct ExitCode { pub code: u8 }
+impl ExitCode { pub const SUCCESS: ExitCode = ExitCode { code: 0 }; pub const FAILURE: ExitCode = ExitCode { code: 1 }; }
